@@ -1,6 +1,7 @@
 //! Harness binary for the diagnostics cluster (C19, C20, C21).
 mod c19;
 mod c20;
+mod c21;
 mod common;
 mod gen_table;
 
@@ -18,6 +19,7 @@ fn main() {
         }
         "C19" => c19::run(&args, &mut report),
         "C20" => c20::run(&args, &mut report),
+        "C21" => c21::run(&args, &mut report),
         other => {
             eprintln!("vh-diag: unknown property {other}");
             std::process::exit(2);
